@@ -58,7 +58,7 @@ def cases(tier, rng):
                 yield Case("intervals.from_shorthand", [a, sh, up], "from_shorthand/odd")
     # lists whose first and last note are the same (not palindromes), a palindrome, and long lists
     for l in (["C", "E", "G", "C"], ["A", "B", "C#", "D", "A"], ["C", "C"], ["C", "E", "C"], ["F#", "A", "F#", "B", "F#"], ["G", "B", "B", "G"],
-              ["C", "D", "E", "F", "G", "A", "B"] * 6, ["Bb"] * 9 + ["C"]):
+              ["C", "D", "E", "F", "G", "A", "B"] * 6, ["Bb"] * 9 + ["C"], ["C", "E", "G", "B"] * 700):
         yield Case("intervals.invert", [list(l)], "invert/equal-ends")
     pool = list(names(1))
     for k in range(0, 7):
